@@ -3,6 +3,7 @@
 import os, json, glob
 HERE = os.path.dirname(os.path.abspath(__file__))
 rows = []
+NOTES = json.load(open(os.path.join(HERE, 'seeded', 'NOTES.json'))) if os.path.exists(os.path.join(HERE, 'seeded', 'NOTES.json')) else {}
 for f in sorted(glob.glob(os.path.join(HERE, 'seeded', '*', 'meta.json'))):
     m = json.load(open(f))
     ev = m.get('evaluation', {})
@@ -22,5 +23,7 @@ with open(os.path.join(HERE, 'seeded', 'SUMMARY.md'), 'w') as out:
     for r in rows:
         out.write('| ' + ' | '.join(r) + ' |\n')
     det = sum(1 for r in rows if r[5] == 'DETECTED')
-    out.write('\n%d changes, %d detected.\n' % (len(rows), det))
+    out.write('\n%d changes, %d detected by the current checks.\n\n## History\n\n' % (len(rows), det))
+    for k in sorted(NOTES):
+        out.write('* **%s** - %s\n' % (k, NOTES[k]))
 print(open(os.path.join(HERE, 'seeded', 'SUMMARY.md')).read()[-600:])
